@@ -4,6 +4,7 @@ on the last element, empty completion, application error, peer error, cancel by 
 both roles and framings, whole and fragmented frames; after every atomic section the key sets of the real stream table and
 reassembly cache are compared with the model's.  Oracle (the property): at quiescence no stream that has terminated by
 the protocol still has a table entry, and the reassembly cache is empty."""
+from harness import internals
 import random
 
 from harness import epcheck as E, endpoint as EP
@@ -193,7 +194,7 @@ def run_partial_request_cancel(kind, requester, permits, lenreq, seed):
             net.loop.settle()
             net.flush(rng)
         res = {'open': {s: sorted(net.ep[s]._stream_control._streams) for s in ('client', 'server')},
-               'partial': {s: sorted(net.ep[s]._frame_fragment_cache._frames_by_stream_id) for s in ('client', 'server')},
+               'partial': {s: sorted(internals.cache_keys(net.ep[s])) for s in ('client', 'server')},
                'wire': [(FR_t(b)) for b in t.wire], 'escaped': list(net.loop.exceptions)[:2]}
         # the id can be used again: a second, small request on a fresh connection state is answered by the handler
         return res
